@@ -62,6 +62,10 @@ def _op_name(op):
             "where": "where"}.get(nm)
 
 
+_RED_NAMES = {"sum": "sum", "max": "max", "min": "min", "amax": "max", "amin": "min",
+              "chunk_max": "max", "chunk_min": "min"}
+
+
 class Exporter:
     def __init__(self, sources):
         self.sources = [(np.asarray(a), int(m), int(o), int(md)) for a, m, o, md in sources]
@@ -73,11 +77,14 @@ class Exporter:
         """program token for `expr`, or None"""
         self.steps = []
         self.memo = {}
+        self.reason = None
         try:
             self._node(expr)
-        except Inexpressible:
+        except Inexpressible as e:
+            self.reason = str(e)
             return None
-        except Exception:  # an unexpected object layout is "inexpressible", never an alarm
+        except Exception as e:  # an unexpected object layout is "inexpressible", never an alarm
+            self.reason = "unexpected: " + repr(e)[:120]
             return None
         return ";".join(self.steps)
 
@@ -196,7 +203,7 @@ class Exporter:
         if cls == "PartialReduce":
             return self._partial_reduce(e)
         if cls == "CumReduction":
-            if getattr(e.func, "__name__", "") != "cumsum" or _op_name(e.binop) != "add":
+            if getattr(e.func, "__name__", "") != "cumsum" or getattr(e.binop, "__name__", "") not in ("_cumsum_merge", "add"):
                 raise Inexpressible("cumulative function")
             k = self._node(e.array)
             return self._emit(f"cumsum~{k}~{int(e.axis)}")
@@ -296,9 +303,9 @@ class Exporter:
         while type(node).__name__ == "PartialReduce":
             nm = (node.operand("name") or "")
             f = nm.split("-")[0]
-            if f not in ("sum", "max", "min", "amax", "amin"):
+            f = _RED_NAMES.get(f)
+            if f is None:
                 raise Inexpressible("partial reduce " + nm)
-            f = {"amax": "max", "amin": "min"}.get(f, f)
             if fn is not None and f != fn:
                 raise Inexpressible("mixed reduce")
             fn = f
@@ -312,8 +319,7 @@ class Exporter:
         if type(node).__name__ != "Blockwise":
             raise Inexpressible("partial reduce over " + type(node).__name__)
         kw = dict(node.kwargs or {})
-        f = getattr(getattr(node.func, "func", node.func), "__name__", "")
-        f = {"amax": "max", "amin": "min"}.get(f, f)
+        f = _RED_NAMES.get(getattr(getattr(node.func, "func", node.func), "__name__", ""))
         kax = kw.get("axis")
         kax = tuple(sorted(int(a) for a in (kax if isinstance(kax, (tuple, list)) else (kax,))))
         if f != fn or kax != axes or not kw.get("keepdims", False):
@@ -338,7 +344,7 @@ SLICE_PARENT = "SliceSlicesIntegers"
 _CANDS = {
     ("SliceSlicesIntegers._simplify_down", SLICE_PARENT): ["sliceSliceFuse", "sliceIdentityDrop"],
     ("FromArray._simplify_up", SLICE_PARENT): ["sliceIntoSrcKeep", "sliceSplitInts", "sliceSliceFuse"],
-    ("FromArray._simplify_up", "Rechunk"): ["rechunkIntoSrc"],
+    ("FromArray._simplify_up", "Rechunk"): ["rechunkIntoSrc", "rechunkIntoRegion"],
     ("Elemwise._simplify_up", SLICE_PARENT): ["sliceThroughMap", "sliceThroughZip"],
     ("Elemwise._simplify_up", "Rechunk"): ["rechunkThroughMap", "rechunkThroughZip"],
     ("Transpose._simplify_up", SLICE_PARENT): ["sliceThroughTranspose", "sliceSplitInts+sliceThroughTranspose"],
@@ -350,7 +356,9 @@ _CANDS = {
                                            "sliceSplitInts+sliceThroughConcat*+sliceThroughExpandDims*"],
     ("Rechunk._simplify_up", "Rechunk"): ["rechunkRechunk"],
     ("Rechunk._simplify_down", "Rechunk"): ["rechunkNoop"],
-    ("Rechunk._lower", "Rechunk"): ["rechunkNoop", "rechunkIntoSrc", "rechunkRechunk"],
+    ("Rechunk._lower", "Rechunk"): ["rechunkNoop", "rechunkIntoSrc", "rechunkIntoRegion", "rechunkRechunk",
+                                    "rechunkThroughMap", "rechunkThroughZip", "rechunkThroughTranspose",
+                                    "rechunkThroughExpandDims*"],
 }
 for _r in ("Sum", "Max", "Min"):
     _CANDS[(f"{_r}._simplify_up", SLICE_PARENT)] = ["sliceThroughSqueeze*+sliceThroughReduce*",
@@ -387,6 +395,8 @@ def collect(ctx, prog, recs, limit=60):
         ta = ex.export(r["after"]) if tb is not None else None
         if tb is None or ta is None:
             stats["inexpressible"][r["rule"]] = stats["inexpressible"].get(r["rule"], 0) + 1
+            why = stats.setdefault("why", {})
+            why[ex.reason] = why.get(ex.reason, 0) + 1
             continue
         if tb == ta:
             stats["identical"][r["rule"]] = stats["identical"].get(r["rule"], 0) + 1
@@ -464,3 +474,51 @@ def flush(ctx):
     stats["inexpressible"] = {}
     stats["identical"] = {}
     ctx.notes["ru.pairs_checked"] = ctx.notes.get("ru.pairs_checked", 0) + len(pend)
+
+
+def model_optimize_stream(ctx, cases):
+    """The model's own optimizer on whole programs: `cases` = [(prog, numpy_value)] with programs inside
+    the mini-language.  The optimized tree printed by `ru.optimize` must evaluate (`ex.eval`) to the NumPy
+    value of the ORIGINAL program (what `C02_optimize_sound` proves, here checking the driver's printer and
+    parser around it), and optimizing it again must return it unchanged (`C08_optimize_idempotent`).
+    A mismatch is a model-side disagreement (the implementation is not involved)."""
+    from harness import progcheck as PC
+
+    toks = []
+    for prog, want in cases:
+        shapes = None
+        try:
+            from harness import programs as P
+
+            shapes = {k: v.shape for k, v in P.run_np(prog).items()}
+        except Exception:
+            pass
+        t = PC.encode(prog, shapes)
+        if t is not None and np.asarray(want).dtype.kind in "iu":
+            toks.append((t, np.asarray(want)))
+    if not toks:
+        return
+    outs = ctx.driver.run([f"ru.optimize {t}" for t, _ in toks])
+    second = []
+    for (t, want), o in zip(toks, outs):
+        if o.startswith("ok ") and "?" not in o:
+            second.append((t, want, o[3:]))
+    lines = []
+    for t, want, t2 in second:
+        lines += [f"ex.eval {t2}", f"ru.optimize {t2}", f"ru.rules {t}"]
+    outs = ctx.driver.run(lines) if lines else []
+    for j, (t, want, t2) in enumerate(second):
+        ev, again, fired = outs[3 * j: 3 * j + 3]
+        ctx.traces += 1
+        ctx.evaluations += 1
+        ctx.distinct.add(("ru.optimize", fired[:60]))
+        if ev.startswith("err"):
+            # the printed tree is outside what the `ex` parser accepts (e.g. a zero-size concat operand)
+            ctx.notes["ru.optimize_unparsed"] = ctx.notes.get("ru.optimize_unparsed", 0) + 1
+            continue
+        expect = "ok " + PC.f_arr(want)
+        if ev != expect:
+            ctx.disagree("ru.optimize", f"ex.eval {t2}   (= ru.optimize {t})", ev[:200], expect[:200])
+        if again.startswith("ok ") and again[3:] != t2:
+            ctx.disagree("ru.optimize", f"ru.optimize {t2}", again[:200], "ok " + t2[:200])
+    ctx.notes["ru.optimize_programs"] = ctx.notes.get("ru.optimize_programs", 0) + len(second)
